@@ -25,7 +25,7 @@ theorem natAbs_cast_neg (w : Int) (h : w < 0) : ((w.natAbs : ℕ) : ℝ) = -(w :
 /-- the kernel-checked fact at one reduced argument, as a statement about `Real.sin` -/
 theorem sinPoly_acc (w : Int) (h1 : -102943 ≤ w) (h2 : w ≤ 102943) :
     ∃ p : Int, sinPoly w = .ok p ∧ -65536 ≤ p ∧ p ≤ 65536 ∧
-      |(p : ℝ) / 65536 - Real.sin ((w : ℝ) / 65536)| ≤ (11 / 5) / 65536 + (((w.natAbs - 4 : ℕ) : ℝ) / 65536) ^ 9 / 362880 := by
+      |(p : ℝ) / 65536 - Real.sin ((w : ℝ) / 65536)| ≤ (11 / 5) / 65536 + (((w.natAbs - 12 : ℕ) : ℝ) / 65536) ^ 9 / 362880 := by
   have hc := SinW_all w (by omega) (by omega)
   unfold checkW at hc
   have hna : ¬ (w.natAbs > 102943) := by omega
@@ -66,63 +66,59 @@ theorem sinPoly_acc (w : Int) (h1 : -102943 ≤ w) (h2 : w ≤ 102943) :
         simp only [hpn, hw, decide_false, bne_self_eq_false, Bool.false_eq_true, if_false, hpm] at hs
         exact hs
 
-/-- from the bound at the reduced argument to the property's bound, for a target value `X = sin (w/65536 + ε)` -/
-theorem acc_core (w p : Int) (X ε : ℝ) (h1 : -102943 ≤ w) (h2 : w ≤ 102943)
-    (hX : X = Real.sin ((w : ℝ) / 65536 + ε)) (hε : |ε| ≤ (156 / 100) / 65536)
-    (hacc : |(p : ℝ) / 65536 - Real.sin ((w : ℝ) / 65536)| ≤ (11 / 5) / 65536 + (((w.natAbs - 4 : ℕ) : ℝ) / 65536) ^ 9 / 362880) :
-    |(p : ℝ) / 65536 - X| ≤ 4 / 65536 + |Real.arcsin X| ^ 9 / 362880 := by
+/-- from the bound at the reduced argument to a bound against a target `X = sin (w/65536 + ε)`, `|ε| ≤ E ≤ 4 ulp`:
+    the Lipschitz term `E` is added and the radius term is expressed through `|arcsin X|` -/
+theorem acc_core (w p : Int) (X ε E : ℝ) (h1 : -102943 ≤ w) (h2 : w ≤ 102943)
+    (hX : X = Real.sin ((w : ℝ) / 65536 + ε)) (hε : |ε| ≤ E) (hE : E ≤ 4 / 65536)
+    (hacc : |(p : ℝ) / 65536 - Real.sin ((w : ℝ) / 65536)| ≤ (11 / 5) / 65536 + (((w.natAbs - 12 : ℕ) : ℝ) / 65536) ^ 9 / 362880) :
+    |(p : ℝ) / 65536 - X| ≤ (11 / 5) / 65536 + E + |Real.arcsin X| ^ 9 / 362880 := by
+  have hE0 : 0 ≤ E := le_trans (abs_nonneg ε) hε
   have hlip := Real.abs_sin_sub_sin_le ((w : ℝ) / 65536) ((w : ℝ) / 65536 + ε)
   have e1 : (w : ℝ) / 65536 - ((w : ℝ) / 65536 + ε) = -ε := by ring
   rw [e1, abs_neg] at hlip
-  -- r ≥ (|w| - 4)/65536
   have hwabs : |(w : ℝ)| ≤ 102943 := by
     rw [abs_le]; constructor
     · have : ((-102943 : ℤ) : ℝ) ≤ (w : ℝ) := by exact_mod_cast h1
       simpa using this
     · exact_mod_cast h2
   have hd1 := delta1_bounds
-  have hpi2 : (102943 : ℝ) / 65536 ≤ Real.pi / 2 + 0 := by
-    have := hd1.2
-    norm_num at this ⊢
-    linarith
   set z : ℝ := (w : ℝ) / 65536 + ε with hz
-  have hzabs : |z| ≤ Real.pi / 2 + (9 / 10) / 65536 := by
+  have hzabs : |z| ≤ Real.pi / 2 + E := by
     calc |z| ≤ |(w : ℝ) / 65536| + |ε| := abs_add_le _ _
-      _ ≤ 102943 / 65536 + (156 / 100) / 65536 := by
+      _ ≤ 102943 / 65536 + E := by
           have : |(w : ℝ) / 65536| = |(w : ℝ)| / 65536 := by rw [abs_div]; norm_num
           rw [this]; gcongr
-      _ ≤ Real.pi / 2 + (9 / 10) / 65536 := by
+      _ ≤ Real.pi / 2 + E := by
           have := hd1.2
           norm_num at this ⊢
           linarith
-  have hr := abs_arcsin_sin_ge z ((9 / 10) / 65536) (by norm_num) (by norm_num) hzabs
+  have hr := abs_arcsin_sin_ge z E hE0 (by linarith) hzabs
   rw [← hX] at hr
   have hzlow : |(w : ℝ) / 65536| - |ε| ≤ |z| := by
     have := abs_sub_abs_le_abs_sub ((w : ℝ) / 65536) (-ε)
     simp only [sub_neg_eq_add, abs_neg] at this
     exact this
-  have hm : (((w.natAbs - 4 : ℕ) : ℝ)) / 65536 ≤ |Real.arcsin X| := by
+  have hm : (((w.natAbs - 12 : ℕ) : ℝ)) / 65536 ≤ |Real.arcsin X| := by
     have hna : ((w.natAbs : ℕ) : ℝ) = |(w : ℝ)| := by
       rw [← Int.cast_abs, Int.abs_eq_natAbs]; simp
-    by_cases h4 : w.natAbs ≤ 4
-    · have : w.natAbs - 4 = 0 := by omega
+    by_cases h4 : w.natAbs ≤ 12
+    · have : w.natAbs - 12 = 0 := by omega
       rw [this]; simp
-    · have : ((w.natAbs - 4 : ℕ) : ℝ) = |(w : ℝ)| - 4 := by
+    · have : ((w.natAbs - 12 : ℕ) : ℝ) = |(w : ℝ)| - 12 := by
         rw [Nat.cast_sub (by omega), hna]; norm_num
       rw [this]
       have : |(w : ℝ) / 65536| = |(w : ℝ)| / 65536 := by rw [abs_div]; norm_num
       rw [this] at hzlow
-      have : (|(w : ℝ)| - 4) / 65536 = |(w : ℝ)| / 65536 - 4 / 65536 := by ring
+      have : (|(w : ℝ)| - 12) / 65536 = |(w : ℝ)| / 65536 - 12 / 65536 := by ring
       rw [this]
       linarith
-  have hm0 : (0 : ℝ) ≤ ((w.natAbs - 4 : ℕ) : ℝ) / 65536 := by positivity
-  have hpow : (((w.natAbs - 4 : ℕ) : ℝ) / 65536) ^ 9 ≤ |Real.arcsin X| ^ 9 := pow_le_pow_left₀ hm0 hm 9
+  have hm0 : (0 : ℝ) ≤ ((w.natAbs - 12 : ℕ) : ℝ) / 65536 := by positivity
   have htri : |(p : ℝ) / 65536 - X| ≤ |(p : ℝ) / 65536 - Real.sin ((w : ℝ) / 65536)| + |Real.sin ((w : ℝ) / 65536) - X| := by
     have := abs_sub_le ((p : ℝ) / 65536) (Real.sin ((w : ℝ) / 65536)) X
     exact this
   rw [hX] at htri
   rw [hX]
-  have : (((w.natAbs - 4 : ℕ) : ℝ) / 65536) ^ 9 / 362880 ≤ |Real.arcsin (Real.sin z)| ^ 9 / 362880 := by
+  have : (((w.natAbs - 12 : ℕ) : ℝ) / 65536) ^ 9 / 362880 ≤ |Real.arcsin (Real.sin z)| ^ 9 / 362880 := by
     rw [← hX]; gcongr
   linarith
 
@@ -146,7 +142,8 @@ theorem C09_sin_acc (v : Int) (h1 : -411774 ≤ v) (h2 : v ≤ 411774) :
     simp only [abs_zero, add_zero] at hε
     calc |ε| ≤ 3 * (636 / 100000000) := le_trans hε this
       _ ≤ (156 / 100) / 65536 := by norm_num
-  exact acc_core w p _ ε hw1 hw2 hsin hε' hacc
+  have := acc_core w p _ ε ((156 / 100) / 65536) hw1 hw2 hsin hε' (by norm_num) hacc
+  linarith
 
 theorem C09_cos_acc (v : Int) (h1 : -411774 ≤ v) (h2 : v ≤ 411774) :
     ∃ c : Int, (cos v ⇓ c) ∧
@@ -181,7 +178,8 @@ theorem C09_cos_acc (v : Int) (h1 : -411774 ≤ v) (h2 : v ≤ 411774) :
       apply mul_le_mul hmabs (le_of_lt hd.2) (le_of_lt hd.1) (by norm_num)
     calc |ε| ≤ 3 * (636 / 100000000) + 45 / 10000000 := le_trans hε (add_le_add this hρ)
       _ ≤ (156 / 100) / 65536 := by norm_num
-  exact acc_core w p _ ε hw1 hw2 hcos hε' hacc
+  have := acc_core w p _ ε ((156 / 100) / 65536) hw1 hw2 hcos hε' (by norm_num) hacc
+  linarith
 
 /-- both results lie in [-1, 1] for every argument below 2^62 -/
 theorem C09_range (v : Int) (h1 : -4611686018427387904 < v) (h2 : v < 4611686018427387904) :
